@@ -640,13 +640,21 @@ func dispatch(e *Entry, j *Job) (res any, errStr string) {
 	}()
 	switch j.Kind {
 	case "consts":
+		safe := func(v int) (s string) {
+			defer func() {
+				if r := recover(); r != nil {
+					s = fmt.Sprintf("PANIC(%v)", r)
+				}
+			}()
+			return e.TokStr(v)
+		}
 		names := map[string]string{}
 		for n, v := range e.Consts {
-			names[n] = e.TokStr(v)
+			names[n] = safe(v)
 		}
 		probe := map[string]string{}
-		for _, v := range []int{-1, len(e.Consts), len(e.Consts) + 1, 1 << 30, -1 << 31} {
-			probe[fmt.Sprint(v)] = e.TokStr(v)
+		for _, v := range []int{-2, -1, len(e.Consts), len(e.Consts) + 1, len(e.Consts) + 100, 1 << 30, -1 << 31} {
+			probe[fmt.Sprint(v)] = safe(v)
 		}
 		return map[string]any{"consts": e.Consts, "names": names, "probe": probe}, ""
 	case "parse":
